@@ -61,6 +61,7 @@ var c13TagTypes = []struct {
 	{"pkg/object/globalfilter/globalfilter.go", []string{"Spec"}},
 	{"pkg/object/httpserver/spec.go", []string{"Spec", "Rule", "Path", "Header"}},
 	{"pkg/util/ipfilter/ipfilter.go", []string{"Spec"}},
+	{"pkg/object/mqttproxy/spec.go", []string{"Spec", "Rule", "When", "RateLimit"}},
 }
 
 var c13KindFiles = []string{
